@@ -152,4 +152,129 @@ theorem C17_builder_duplicate_identical_counterexample : ¬ C17_builder_duplicat
   have := (List.all_eq_true.1 hall) c hc
   simp [hname, hd] at this
 
+
+/-! ## option actions: contracts -/
+
+/-- `omit` removes the option (and stores nothing) -/
+theorem C17_option_omit_removes (ss : Schemas) (b : Builder) (o : Opt) (sel : OSel) :
+    applyAction ss b o (.omit sel) = .ok { opts := [], writes := [] } := rfl
+
+/-- `rename` only renames -/
+theorem C17_option_rename_only_renames (ss : Schemas) (b : Builder) (o : Opt) (sel : OSel) (as_ : String) :
+    applyAction ss b o (.rename sel as_) = .ok { opts := [{ o with name := as_ }], writes := [] } := rfl
+
+/-- `add_comments` only appends comments -/
+theorem C17_option_add_comments_only_comments (ss : Schemas) (b : Builder) (o : Opt) (sel : OSel) (cs : List String) :
+    applyAction ss b o (.addComments sel cs) = .ok { opts := [{ o with comments := o.comments ++ cs }], writes := [] } := rfl
+
+/-- `duplicate` keeps the option and adds its `DeepCopy` under the new name -/
+theorem C17_option_duplicate_shape (ss : Schemas) (b : Builder) (o : Opt) (sel : OSel) (as_ : String) :
+    applyAction ss b o (.duplicate sel as_) = .ok { opts := [o, { o.deepCopy with name := as_ }], writes := [] } := rfl
+
+/-- the property's reading: the second option is identical to the first but for its name -/
+def C17_option_duplicate_identical_full : Prop :=
+  ∀ (ss : Schemas) (b : Builder) (o : Opt) (sel : OSel) (as_ : String) (out : ActOut),
+    applyAction ss b o (.duplicate sel as_) = .ok out →
+    ∃ c, out.opts = [o, c] ∧ c.content = { o.content with name := as_ }
+
+/-- what holds: identical but for the name and **the default** -/
+theorem C17_option_duplicate_identical_partial (ss : Schemas) (b : Builder) (o : Opt) (sel : OSel) (as_ : String)
+    (out : ActOut) (h : applyAction ss b o (.duplicate sel as_) = .ok out) :
+    ∃ c, out.opts = [o, c] ∧ c.content = { o.content with name := as_, dflt := none } ∧
+      (o.dflt = none → c.content = { o.content with name := as_ }) := by
+  rw [C17_option_duplicate_shape] at h
+  injection h with h
+  subst h
+  refine ⟨_, rfl, ?_, ?_⟩
+  · have := Opt.deepCopy_content o
+    simp only [Opt.content, Opt.mapCells, Opt.deepCopy] at this ⊢
+    simpa using this
+  · intro hd
+    have := Opt.deepCopy_content_of_no_default o hd
+    simp only [Opt.content, Opt.mapCells, Opt.deepCopy] at this ⊢
+    simpa using this
+
+example : ∃ o : Opt, o.dflt = none := ⟨{ name := "x" }, rfl⟩
+
+theorem C17_option_duplicate_identical_counterexample : ¬ C17_option_duplicate_identical_full := by
+  intro hfull
+  let o : Opt := { name := "a", dflt := some [.bool true] }
+  obtain ⟨c, hc, hcont⟩ := hfull [] default o .empty "dup" _ (C17_option_duplicate_shape [] default o .empty "dup")
+  have h2 : c = { o.deepCopy with name := "dup" } := by
+    have := congrArg (fun l : List Opt => l[1]?) hc
+    simpa using this.symm
+  have := congrArg Opt.dflt hcont
+  rw [h2] at this
+  simp [Opt.content, Opt.mapCells, Opt.deepCopy, o] at this
+
+/-- `array_to_append`: one option comes back, under the same name, and its assignments still target
+    exactly the paths the original's assignments targeted -/
+theorem C17_array_to_append_same_target (o : Opt) (out : ActOut) (h : arrayToAppendAction o = .ok out) :
+    ∃ o', out.opts = [o'] ∧ o'.name = o.name ∧ o'.assignments.map (·.path) = o.assignments.map (·.path) := by
+  unfold arrayToAppendAction at h
+  split at h
+  · rename_i a hargs
+    split at h
+    · simp [unchanged] at h; subst h; exact ⟨o, rfl, rfl, rfl⟩
+    · split at h
+      · split at h
+        · simp at h
+        · rename_i a0 rest hasg
+          simp at h; subst h
+          exact ⟨_, rfl, rfl, by simp [hasg]⟩
+      · simp at h
+  · simp [unchanged] at h; subst h; exact ⟨o, rfl, rfl, rfl⟩
+
+/-- `map_to_index`: one option comes back, under the same name; either unchanged, or its first
+    assignment targets the original first target *indexed by the new key argument* and the others
+    are where they were -/
+theorem C17_map_to_index_same_target (o : Opt) (out : ActOut) (h : mapToIndexAction o = .ok out) :
+    ∃ o', out.opts = [o'] ∧ o'.name = o.name ∧
+      (o'.assignments.map (·.path) = o.assignments.map (·.path) ∨
+       ∃ a0 rest item, o.assignments = a0 :: rest ∧ item.index.isSome = true ∧
+         o'.assignments.map (·.path) = (a0.path ++ [item]) :: rest.map (·.path)) := by
+  unfold mapToIndexAction at h
+  split at h
+  · split at h
+    · simp [unchanged] at h; subst h; exact ⟨o, rfl, rfl, .inl rfl⟩
+    · split at h
+      · split at h
+        · simp at h
+        · rename_i a0 rest hasg
+          simp at h; subst h
+          refine ⟨_, rfl, rfl, .inr ⟨a0, rest, _, hasg, ?_, by simp; rfl⟩⟩
+          rfl
+      · simp at h
+  · simp [unchanged] at h; subst h; exact ⟨o, rfl, rfl, .inl rfl⟩
+
+/-- `unfold_boolean`: either the option comes back unchanged, or two argument-less options come back
+    that each assign a constant (`true`, `false`) to exactly the original first target -/
+theorem C17_unfold_boolean_same_target (t f : String) (o : Opt) (out : ActOut) (h : unfoldBooleanAction t f o = .ok out) :
+    out.opts = [o] ∨
+    ∃ a0 rest ot of_, o.assignments = a0 :: rest ∧ out.opts = [ot, of_] ∧
+      ot.name = t ∧ of_.name = f ∧ ot.args = [] ∧ of_.args = [] ∧
+      ot.assignments = [constantAssignment a0.path (.bool true)] ∧
+      of_.assignments = [constantAssignment a0.path (.bool false)] := by
+  unfold unfoldBooleanAction at h
+  split at h
+  · simp at h
+  · rename_i a0 rest hasg
+    split at h
+    · simp at h
+    · split at h
+      · simp [unchanged] at h; subst h; exact .inl rfl
+      · split at h
+        · split at h
+          · simp [unchanged] at h; subst h; exact .inl rfl
+          · split at h
+            · simp at h; subst h
+              exact .inr ⟨a0, rest, _, _, hasg, rfl, rfl, rfl, rfl, rfl, rfl, rfl⟩
+            · simp at h
+            · split at h
+              · simp at h; subst h
+                exact .inr ⟨a0, rest, _, _, hasg, rfl, rfl, rfl, rfl, rfl, rfl, rfl⟩
+              · simp at h; subst h
+                exact .inr ⟨a0, rest, _, _, hasg, rfl, rfl, rfl, rfl, rfl, rfl, rfl⟩
+        · simp at h
+
 end Cog.Builder
